@@ -32,6 +32,8 @@ World W;
 WBuf g_extra;
 extern jmp_buf g_exit_jmp;
 extern int g_exit_jmp_active;
+extern uint32_t naken_asm_verif_stale_count;
+extern uint32_t naken_asm_verif_stale_first;
 extern int g_exit_status;
 
 static int g_in_callback = 0;
@@ -752,6 +754,9 @@ const char *__ubsan_default_options()
 void sim_finish(int how, int status)
 {
   SharedHeader *h = W.hdr;
+  // hook H2 of /repo: bytes of the image that the last assembly's pass 2 never wrote (counted when the output was written)
+  h->counters[NCOUNTERS - 3] = naken_asm_verif_stale_count;
+  h->counters[NCOUNTERS - 2] = naken_asm_verif_stale_first;
   W.event_ceiling = 0;
   if (how == HOW_EXIT && g_in_callback == 0)
   {
@@ -855,6 +860,7 @@ static void child_main(const uint8_t *req, size_t len, int stderr_fd)
   W.fd_limit = rq.u32();
   W.event_ceiling = rq.u64();
   W.stdout_ceiling = rq.u64();
+  rq.u8();                                 // (reserved)
   W.cwd = rq.str();
   uint32_t nfiles = rq.u32();
   for (uint32_t i = 0; i < nfiles && !rq.bad; i++)
